@@ -59,8 +59,17 @@ func Probe(args []string) int {
 	if len(args) > 1 {
 		_ = json.Unmarshal([]byte(args[1]), &boot)
 	}
-	p := &kernel.Pool{N: 1, Boot: boot}
-	w, err := p.BootWorker()
+	var w *kernel.Worker
+	if len(args) > 2 { // reuse an existing directory (kept afterwards)
+		w, err = kernel.Spawn(kernel.SpawnOpts{Dir: args[2]})
+		if err == nil {
+			boot["dir"] = args[2]
+			err = w.Call("boot", boot, nil)
+		}
+	} else {
+		p := &kernel.Pool{N: 1, Boot: boot}
+		w, err = p.BootWorker()
+	}
 	if err != nil {
 		fmt.Println(err)
 		return 2
